@@ -49,11 +49,12 @@ for k in (0, 1, 2):
 for nm in ("find_numbers_percent", "find_total_from_percent", "number_calc", "calc_percent", "convert_money", "money_money", "money_number"):
     add(H("REPLAY", "m_replay_" + nm, "verif_k::c05::m_replay_" + nm, "", kani=False))
 
-for nm in ("time_calc", "time_with_timezone", "unixtime", "to_unixtime", "to_duration_dates", "to_duration_times"):
+for nm in ("time_calc", "time_with_timezone", "unixtime", "to_unixtime", "to_duration_dates", "to_duration_times", "small_date", "parse_timezone", "based_calc", "program"):
     add(H("REPLAY", "m_replay_" + nm, "verif_k::c10::m_replay_" + nm, "", kani=False))
 for nm in ("duration_parse", "as_duration", "duration_calc", "combine_durations", "duration_print", "as_time", "number_print", "number_type_convert"):
     add(H("REPLAY", "m_replay_" + nm, "verif_k::c10::m_replay_" + nm, "", kani=False))
 add(H("REPLAY", "m_replay_expression", "verif_k::c02::m_replay_expression", "", kani=False))
+add(H("REPLAY", "m_probe_all", "verif_k::c10::m_probe_all", "", kani=False))
 add(H("REPLAY", "d_dump_units", "verif_k::c12::d_dump_units", "", kani=False))
 add(H("REPLAY", "k_replay_session_reuse", "verif_k::c04::k_replay_session_reuse", "", kani=False))
 
@@ -90,3 +91,22 @@ for n in (3, 4):
     add(H("C02", "c02_glue_missing_%d" % n, "verif_k::c02::glue_missing_tokens", str(n), stubs=("log", "fmt", "drop"), unwindset=PARSER_LOOPS, timeout=900,
           tiers=EXPERIMENTAL,
           about="missing_token_adder on all operand/operator lists of length %d: '+' inserted exactly between adjacent operands, 0 before a leading operator" % n))
+
+# ----------------------------------------------------------------------------- chrono models of engine M (validated by K) + month arithmetic
+add(H("C09", "c09_chrono_model_ymd", "verif_k::c09::chrono_model_ymd", "1600, 2400", timeout=600, tiers=("quick",),
+      about="engine M's Gregorian model (validity predicate and day number) equals chrono's from_ymd_opt / num_days_from_ce for every year 1600..2400 (two full 400-year cycles), every month 0..13 and day 0..32"))
+add(H("C09", "c09_chrono_model_ymd_all", "verif_k::c09::chrono_model_ymd", "1, 9999", timeout=1800, tiers=("thorough",),
+      about="same for every year 1..9999"))
+for i, (lo, hi) in enumerate(((-262143, -100000), (-100000, 0), (10000, 100000), (100000, 262142))):
+    add(H("C09", "c09_chrono_model_ymd_far%d" % i, "verif_k::c09::chrono_model_ymd", "%d, %d" % (lo, hi), timeout=3000, tiers=("thorough",),
+          about="same for years %d..%d" % (lo, hi)))
+add(H("C14", "c14_chrono_model_timestamp", "verif_k::c09::chrono_model_timestamp", "", timeout=900,
+      about="engine M's model of timestamp / and_hms / second of day equals chrono for every date-time of years 1..9999 (from_timestamp: documented inverse)"))
+add(H("C11", "c11_chrono_model_datetime_add", "verif_k::c09::chrono_model_datetime_add", "1900, 2100, 3600", timeout=600, tiers=("quick",),
+      about="engine M's model of NaiveDateTime + whole seconds equals chrono for all date-times of years 1901..2099 and |d| <= 1 h"))
+add(H("C11", "c11_chrono_model_datetime_add_all", "verif_k::c09::chrono_model_datetime_add", "1, 9999, 172800", timeout=3000, tiers=("thorough",),
+      about="same for years 2..9998 and |d| <= 2 days"))
+add(H("C10", "c10_chrono_model_timedelta", "verif_k::c09::chrono_model_timedelta", "", timeout=900,
+      about="engine M's model of TimeDelta::{seconds,minutes,hours,days,weeks}, num_seconds and + equals chrono for |n| <= 10^9"))
+add(H("C09", "c09_add_months_years", "verif_k::c09::date_add_months", "2", unwindset=(MEMCMP,), timeout=1200,
+      about="DateItem + (Y years M months as 365Y+30M days), Y <= 2, M <= 11, day <= 28, landing month not December-aligned: day kept, month index moved by 12Y+M; all dates of years 1..9996"))
